@@ -26,6 +26,12 @@ use crate::compile_util::*;
 use crate::progen::*;
 use crate::util::*;
 use rssl::text::tokens::Token;
+
+/// the C07 worker's families of rejected programs (every TyperError / ParseError / PreprocessError / LexerError
+/// variant they could reach); compiled into this module a second time, nothing in c07.rs is touched
+#[path = "c07_diag.rs"]
+#[allow(dead_code)]
+mod diag;
 use rssl::text::{Locate, LocateEnd, SourceLocation, SourceManager, StreamLocation};
 
 // ------------------------------------------------------------------------------------------------
@@ -343,37 +349,116 @@ fn short_token_name(t: &Token) -> String {
     if head.starts_with("Literal") { "literal".into() } else { head.to_lowercase() }
 }
 
+fn kind_of(t: &Token, text: &str, start: usize) -> K {
+    match t {
+        Token::Whitespace => K::Ws,
+        Token::Endline => K::Endline,
+        Token::PhysicalEndline => K::Splice,
+        Token::Comment => {
+            if text[start..].starts_with("//") { K::LineComment } else { K::BlockComment }
+        }
+        Token::Hash => K::Hash,
+        Token::Id(id) => K::Id(id.0.clone()),
+        Token::LeftAngleBracket(_) => K::LAngle,
+        Token::RightAngleBracket(_) => K::RAngle,
+        Token::LeftParen => K::LParen,
+        Token::RightParen => K::RParen,
+        Token::ForwardSlash => K::Slash,
+        Token::LiteralString(_) => K::Str,
+        other => K::Other(short_token_name(other)),
+    }
+}
+
+/// The real `TokenStream` run token by token (no directive handling): the tokens lexed before the end or
+/// the first lexer error, and that error (reason, offset). A panic counts as an error at the point reached.
+fn lex_raw(text: &str, trailing: bool) -> (Vec<(Token, usize, usize)>, Option<(String, usize)>) {
+    use rssl_preprocess::verif::TokenStream;
+    let mut ts = TokenStream::new(text, SourceLocation::first());
+    if !trailing {
+        ts = ts.suppress_trailing_endline();
+    }
+    let mut out = Vec::new();
+    let mut err = None;
+    while !ts.end_of_stream() {
+        match guard(|| ts.next(false)) {
+            Ok(Ok(t)) => out.push((t.0.clone(), t.get_location().get_raw() as usize, t.get_end_location().get_raw() as usize)),
+            Ok(Err(e)) => {
+                err = Some((format!("{:?}", e.reason), e.location.get_raw() as usize));
+                break;
+            }
+            Err(p) => {
+                err = Some((format!("panic {}", p), out.last().map(|t: &(Token, usize, usize)| t.2).unwrap_or(0)));
+                break;
+            }
+        }
+        if out.len() > text.len() + 2 {
+            err = Some(("no-progress".into(), 0));
+            break;
+        }
+    }
+    (out, err)
+}
+
+/// Token spans of the part of a file that lexes, and whether that is the whole file. Lexed the way
+/// `preprocess_included_file` drives the `TokenStream`: after `# include` the rest of the line is lexed in
+/// header-name mode (`<a/b.h>` is one token, an unterminated `<abc` is a lexer error that ends the lexing).
+fn lex_prefix(text: &str) -> (Vec<Tok>, bool) {
+    use rssl_preprocess::verif::TokenStream;
+    #[derive(PartialEq)]
+    enum S {
+        StartOfLine,
+        CommandStart,
+        CommandContents,
+        Normal,
+    }
+    let mut ts = TokenStream::new(text, SourceLocation::first()).suppress_trailing_endline();
+    let mut st = S::StartOfLine;
+    let mut inside_include = false;
+    let mut toks = Vec::new();
+    let mut complete = true;
+    while !ts.end_of_stream() {
+        let t = match guard(|| ts.next(inside_include)) {
+            Ok(Ok(t)) => t,
+            _ => {
+                complete = false;
+                break;
+            }
+        };
+        let (s, e) = (t.get_location().get_raw() as usize, t.get_end_location().get_raw() as usize);
+        match (&t.0, &st) {
+            (Token::Endline, _) => {
+                st = S::StartOfLine;
+                inside_include = false;
+            }
+            (Token::Hash, S::StartOfLine) => st = S::CommandStart,
+            (tok, S::CommandStart) if !tok.is_whitespace() => {
+                st = S::CommandContents;
+                if let Token::Id(id) = tok {
+                    if id.0 == "include" {
+                        inside_include = true;
+                    }
+                }
+            }
+            (tok, S::StartOfLine) => {
+                if !tok.is_whitespace() {
+                    st = S::Normal;
+                }
+            }
+            _ => {}
+        }
+        toks.push(Tok { k: kind_of(&t.0, text, s), start: s, end: e });
+        if toks.len() > text.len() + 2 {
+            complete = false;
+            break;
+        }
+    }
+    (toks, complete)
+}
+
 /// Token spans of a file from the real lexer (no directive handling); None when the file does not lex
 fn lex_file(text: &str) -> Option<Vec<Tok>> {
-    let r = guard(|| rssl_preprocess::verif::lex(text, SourceLocation::first(), false));
-    let toks = match r {
-        Ok(Ok(t)) => t,
-        _ => return None,
-    };
-    let mut out = Vec::new();
-    for t in &toks {
-        let start = t.get_location().get_raw() as usize;
-        let end = t.get_end_location().get_raw() as usize;
-        let k = match &t.0 {
-            Token::Whitespace => K::Ws,
-            Token::Endline => K::Endline,
-            Token::PhysicalEndline => K::Splice,
-            Token::Comment => {
-                if text[start..].starts_with("//") { K::LineComment } else { K::BlockComment }
-            }
-            Token::Hash => K::Hash,
-            Token::Id(id) => K::Id(id.0.clone()),
-            Token::LeftAngleBracket(_) => K::LAngle,
-            Token::RightAngleBracket(_) => K::RAngle,
-            Token::LeftParen => K::LParen,
-            Token::RightParen => K::RParen,
-            Token::ForwardSlash => K::Slash,
-            Token::LiteralString(_) => K::Str,
-            other => K::Other(short_token_name(other)),
-        };
-        out.push(Tok { k, start, end });
-    }
-    Some(out)
+    let (toks, complete) = lex_prefix(text);
+    if complete { Some(toks) } else { None }
 }
 
 /// names of the function-like macros a file defines (`#define NAME(`)
@@ -432,6 +517,7 @@ fn boundaries(text: &str, toks: &[Tok], known_fn_macros: &[String]) -> Vec<Bound
     let mut fn_macros: Vec<String> = known_fn_macros.to_vec();
     let mut define_name_tok: Vec<bool> = vec![false; n];
     let mut include_arg: Vec<bool> = vec![false; n];
+    let mut header_close: Vec<bool> = vec![false; n];
     {
         #[derive(PartialEq)]
         enum S {
@@ -443,10 +529,12 @@ fn boundaries(text: &str, toks: &[Tok], known_fn_macros: &[String]) -> Vec<Bound
         let mut st = S::StartOfLine;
         let mut cur_dir: Option<String> = None;
         let mut seen_after_name = 0usize;
+        let mut header_open = false;
         for i in 0..n {
             let k = &toks[i].k;
             match (k, &st) {
                 (K::Endline, S::CommandContents) | (K::Endline, S::CommandStart) => {
+                    header_open = false;
                     in_dir[i] = true;
                     dir_name[i] = cur_dir.clone();
                     st = S::StartOfLine;
@@ -485,8 +573,20 @@ fn boundaries(text: &str, toks: &[Tok], known_fn_macros: &[String]) -> Vec<Bound
                             }
                         }
                     }
+                    // `#include <a/b.h>`: the preprocessor lexes `<a/b.h>` as one HeaderName token (our plain
+                    // lexing splits it): its inner boundaries are not token boundaries, the one after `>` is
                     if cur_dir.as_deref() == Some("include") && seen_after_name >= 1 {
-                        include_arg[i] = true;
+                        if seen_after_name == 1 && *k == K::LAngle {
+                            header_open = true;
+                        }
+                        if header_open {
+                            if *k == K::RAngle {
+                                header_close[i] = true;
+                                header_open = false;
+                            } else {
+                                include_arg[i] = true;
+                            }
+                        }
                     }
                 }
                 (k, S::StartOfLine) => {
@@ -542,6 +642,37 @@ fn boundaries(text: &str, toks: &[Tok], known_fn_macros: &[String]) -> Vec<Bound
             }
         }
     }
+    // `1.xxx`: the float part of a swizzled numeric literal; an insertion inside it (after the `.`) is at a token
+    // boundary of the lexer (`1` `.` `xxx`) but turns `1.` into a floating literal
+    let mut in_swizzled = vec![false; n + 1];
+    for i in 0..n {
+        if toks[i].k == K::Other("literal".into()) {
+            if let Some(len) = swizzled_literal(&text.as_bytes()[toks[i].start..]) {
+                let (lo, hi) = (toks[i].start, toks[i].start + len);
+                for b in (i + 1)..=n {
+                    let off = if b < n { toks[b].start } else { toks[n - 1].end };
+                    if off > lo && off <= hi {
+                        in_swizzled[b] = true;
+                    }
+                }
+            }
+        }
+    }
+    // a `#` that is the first token of a line starts a directive (by design, as in C): a line break may not be put
+    // in front of a stray `#` in the middle of a line (such a `#` only occurs in rejected programs)
+    let mut before_stray_hash = vec![false; n + 1];
+    for h in 0..n {
+        if toks[h].k == K::Hash && !in_dir[h] {
+            let mut b = h;
+            loop {
+                before_stray_hash[b] = true;
+                if b == 0 || !matches!(toks[b - 1].k, K::Ws | K::BlockComment | K::Splice) {
+                    break;
+                }
+                b -= 1;
+            }
+        }
+    }
     let mut out = Vec::new();
     for b in 0..=n {
         let prev = if b > 0 { Some(&toks[b - 1]) } else { None };
@@ -552,7 +683,7 @@ fn boundaries(text: &str, toks: &[Tok], known_fn_macros: &[String]) -> Vec<Bound
             (None, None) => 0,
         };
         if let Some(p) = prev {
-            if matches!(p.k, K::LAngle | K::RAngle | K::LineComment) {
+            if matches!(p.k, K::LAngle | K::RAngle | K::LineComment) && !header_close[b - 1] {
                 continue;
             }
             // zero-width tokens do not occur, but never insert inside a token
@@ -577,6 +708,9 @@ fn boundaries(text: &str, toks: &[Tok], known_fn_macros: &[String]) -> Vec<Bound
             let d = dir_name[b - 1].clone().unwrap_or_default();
             ctx.push_str(&format!(" dir:{}", if d.is_empty() { "(before-name)" } else { d.as_str() }));
         }
+        if in_swizzled[b] {
+            ctx.push_str(" swizzled-literal");
+        }
         if call_gap[b] {
             ctx.push_str(" macro-call-gap");
         } else if empty_args[b] {
@@ -586,13 +720,12 @@ fn boundaries(text: &str, toks: &[Tok], known_fn_macros: &[String]) -> Vec<Bound
         }
         out.push(Boundary {
             off,
-            newline_ok: !dir,
+            newline_ok: !dir && !before_stray_hash[b],
             after_slash: prev.map(|p| p.k == K::Slash).unwrap_or(false),
             line_start,
             ctx,
         });
     }
-    let _ = text;
     out
 }
 
@@ -602,11 +735,14 @@ const TRIVIA_INLINE: &[(&str, &[&str])] = &[
     ("block-comment", &["/* c */", "/**/", "/* a * b / c // d */"]),
     ("splice", &["\\\n", "\\\r\n", " \\\n "]),
     ("mixed-inline", &[" /* c */\t", "\t/**/ "]),
+    // a comment that spans lines is still one whitespace token: no logical line break, allowed inside directives
+    ("block-comment-multiline", &["/* l1\n   l2 */", "/*\n*/", "/* a\r\n b */"]),
 ];
 const TRIVIA_NEWLINE: &[(&str, &[&str])] = &[
     ("newline", &["\n", "\n\n", "\r\n"]),
-    ("line-comment", &["// note\n", "//\n", " // a /* b\n"]),
-    ("block-comment-multiline", &["/* l1\n   l2 */", "/*\n*/"]),
+    ("line-comment", &["// note\n", "//\n", " // a /* b\n", "// crlf\r\n"]),
+    // a line comment continued over a spliced line break is still one comment
+    ("line-comment-spliced", &["// first \\\n second\n", "// a \\\r\n b \\\n c\r\n"]),
     ("mixed-newline", &[" // c\n\t/* d */ \n"]),
 ];
 
@@ -619,27 +755,29 @@ fn pick_trivia(rng: &mut Rng, b: &Boundary) -> (String, String) {
     // one insertion in four is a comment with a random body over an alphabet of characters that matter to the lexer
     // (`/*/ x */`, `/***/`, `/* " ' \\ # */`, `// /* "`): a comment is one token whatever it contains
     if rng.chance(1, 4) {
-        const ALPHA: &[&str] = &["/", "*", " ", "a", "\"", "'", "\\", "#", "<", ">", "(", "//", "/*", "0", "\t"];
+        const ALPHA: &[&str] = &["/", "*", " ", "a", "\"", "'", "\\", "#", "<", ">", "(", "//", "/*", "0", "\t", "\r", "\u{c}", "\u{a0}", "\u{feff}"];
         let mut body = String::new();
         for _ in 0..rng.below(6) {
             body.push_str(*rng.pick(ALPHA));
         }
         if use_nl && rng.chance(1, 2) {
             // line comment: must not end in a backslash (that would splice the next line into the comment)
-            while body.ends_with('\\') {
+            // (nor in backslash + CR: with the newline that is a spliced CRLF)
+            while body.ends_with('\\') || body.ends_with("\\\r") {
                 body.pop();
             }
             class = "random-line-comment";
             t = format!("//{}\n", body);
         } else {
-            if use_nl && rng.chance(1, 2) {
+            // a line break inside a block comment is not a logical line break (allowed on directive lines too)
+            if rng.chance(1, 3) {
                 body.push('\n');
             }
             let body = body.replace("*/", "* /");
             class = "random-block-comment";
             // `/*` + body + `*/`: a body ending in `*` is fine (`/***/`), a body starting with `/` gives `/*/ .. */`
             t = format!("/*{}*/", body);
-            if use_nl && !t.contains('\n') {
+            if use_nl {
                 t.push('\n');
             }
         }
@@ -669,16 +807,25 @@ fn pad_lines(rng: &mut Rng, k: usize) -> String {
 // the metamorphic case
 // ------------------------------------------------------------------------------------------------
 
-fn parse_mode(s: &str) -> Option<Mode> {
-    match s {
-        "all" => Some(Mode::All),
-        "nopipeline" => Some(Mode::NoPipeline),
+/// `all` | `nopipeline`, optionally followed by `+layout` (validate_layout_consistency)
+fn parse_mode(s: &str) -> Option<(Mode, bool)> {
+    let (m, layout) = match s.strip_suffix("+layout") {
+        Some(m) => (m, true),
+        None => (s, false),
+    };
+    match m {
+        "all" => Some((Mode::All, layout)),
+        "nopipeline" => Some((Mode::NoPipeline, layout)),
         _ => None,
     }
 }
 
-fn compile_files(files: &Files, tgt: Tgt, mode: &Mode) -> CompileOutcome {
-    compile(&Job { entry: &files[0].0, files, defines: &[], target: tgt, mode: mode.clone(), validate_layout: false })
+fn show_mode(mode: &Mode, layout: bool) -> String {
+    format!("{}{}", mode.show(), if layout { "+layout" } else { "" })
+}
+
+fn compile_files(files: &Files, tgt: Tgt, mode: &Mode, layout: bool) -> CompileOutcome {
+    compile(&Job { entry: &files[0].0, files, defines: &[], target: tgt, mode: mode.clone(), validate_layout: layout })
 }
 
 struct Verdict {
@@ -874,8 +1021,12 @@ fn run_meta_files(
 
 /// a case without an edit: the diagnostic of the program itself must be at the given place
 fn run_anchor(prefix: &str, files: &Files, base: &CompileOutcome, anchor: (usize, usize, usize), tag: &str) -> MetaResult {
+    run_anchor_block(prefix, files, base, 0, anchor, tag)
+}
+
+fn run_anchor_block(prefix: &str, files: &Files, base: &CompileOutcome, block: usize, anchor: (usize, usize, usize), tag: &str) -> MetaResult {
     let v = verdict(base, files);
-    let judged = anchor_check(files, base, anchor);
+    let judged = anchor_check_block(files, base, block, anchor);
     let (oracle, failed) = match &judged {
         Ok(()) => ("ok".to_string(), false),
         Err(d) => (format!("FAIL:{}", d), true),
@@ -890,7 +1041,7 @@ fn edited_field(op_prefix: &str, files: &Files, edited: usize) -> String {
 
 /// description of the insertion points of an edit list: class of the inserted text and token context
 fn describe_edits(text: &str, edits: &Edits, macros: &[String]) -> String {
-    let Some(toks) = lex_file(text) else { return "unlexable".into() };
+    let (toks, _) = lex_prefix(text);
     let bs = boundaries(text, &toks, macros);
     let mut parts = Vec::new();
     for (p, t) in edits.iter().take(3) {
@@ -1065,16 +1216,345 @@ const SNIPPETS: &[&str] = &[
     "#define STR_JOIN(a) a\nstatic const int k = STR_JOIN(\n    1 +\n    2\n);\nint f() { return k; }\n",
     "#define OBJ (1 + 2)\n#define FN(a) (a * OBJ)\nint f(int x) {\n    int FN = 3;\n    return FN + FN(x);\n}\n",
     "enum E { A = 1, B = A << 2, C = B >> 1 };\nint f() { return (int)B < (int)C ? 1 : 2; }\n",
+    // swizzles of numeric literals: `1.xxx` is the integer 1, `.`, `xxx`
+    "float3 f(float a) {\n    float3 v = 1.xxx;\n    float2 w = 2.xx + 3.xx;\n    return v * a + w.xyx + 4.0.xxx;\n}\n",
+    "static const uint k = 0x1Fu + 017 + 1ul + 2LU;\nstatic const float h = 1.5h + 2.0f + 1e3 + 1.e+2 + 0.5e-1f + 1.#INF;\nstatic const double d = 3.0L;\nint f(int x) { return x+++x - -x + (x<x?x:x) % 2 / 2; }\n",
 ];
+
+
+// ------------------------------------------------------------------------------------------------
+// hand-written families: diagnostics inside macro expansions, notes across files, file shapes
+// ------------------------------------------------------------------------------------------------
+
+/// families of this module: `mx_*` errors that surface inside a macro expansion, `nt_*` diagnostics with a
+/// second location (notes) across files, `lt_*` file shapes (no final newline, empty files, CRLF, include on
+/// the last line, bytes the lexer does not accept as white space)
+const OWN_FAMILIES: &[&str] = &[
+    "mx_obj_body", "mx_fn_body", "mx_fn_arg", "mx_nested", "mx_def_in_include", "mx_use_in_include", "mx_type_error", "mx_multiline_call",
+    "mx_redef", "mx_parse", "mx_condition", "mx_arity", "mx_unterminated_args", "mx_concat_bad",
+    "nt_redef_across_files", "nt_redef_in_include", "nt_overload_across_files", "nt_same_file",
+    "lt_no_final_newline", "lt_include_last_line", "lt_empty_files", "lt_error_at_eof", "lt_crlf", "lt_tabs_utf8", "lt_splice",
+    "lt_not_whitespace", "lt_comment_ends_file", "lt_directive_trivia", "lt_angle_include", "lt_tokens", "lt_ok_shapes",
+];
+
+/// one rejected program per diagnostic that C07's families (which report only the first of their offenders) rarely
+/// reach first: `ty_single#<i>`
+const TY_SINGLE: &[&str] = &[
+    "Missing<int> g_a;\n",
+    "namespace N { }\nstatic N::T g_a;\n",
+    "struct A { int x; };\nstruct B { int y; };\nint f() { A a; return a.B::y; }\n",
+    "int f() { float arr[2]; return arr[1.5]; }\n",
+    "int f() { return ~1.5; }\n",
+    "int f() { float a = 1; return a << 1; }\n",
+    "struct P { float a; };\nfloat f() { P p; return true ? p : 1; }\n",
+    "struct P { float a; };\nstruct O { float a; };\nfloat f() { P p; O o = (O)p; return o.a; }\n",
+    "struct P { float a; int b; };\nstatic P g = { 1, 2, 3 };\n",
+    "void f() { float2 v = { 1, 2, 3 }; }\n",
+    "void f() { float g[]; }\n",
+    "static int n = 3;\nstatic float g[n];\n",
+    "static int n = 3;\nenum E { A = n };\n",
+    "static int g : register(t0);\n",
+    "struct S { int m : packoffset(c0); };\n",
+    "void f() { int local : SEMANTIC; }\n",
+    "static int g : SEMANTIC;\n",
+    "void f() { [unroll(1, 2)] for (int i = 0; i < 2; ++i) { } }\n",
+    "void f() { [branch(3)] if (true) { } }\n",
+    "[[rssl::bind_group]]\nBuffer<float> g;\n",
+    "[[rssl::bind_group(1, 2)]]\nBuffer<float> g;\n",
+    "row_major float4 g;\n",
+    "unorm int g;\n",
+    "struct V { float4 p : SV_Position; };\n[outputtopology(\"triangle\")]\n[numthreads(1,1,1)]\nvoid ms(out vertices V v[3], out indices float3 t[1]) { }\n",
+    "void f(int a = 1, int b) { }\n",
+    "template<typename T = int, typename U>\nstruct TS { int m; };\n",
+    "template<typename T>\nstruct TS { T m; };\nstatic TS<float, 2, 3> g;\n",
+    "[outputtopology(\"square\")]\n[numthreads(1, 1, 1)]\nvoid ms() { }\n",
+    "void f() { SamplerState s = StaticSampler { }; }\n",
+    "SamplerState g = StaticSampler { Unknown = 1; };\n",
+    "float4 vs() : SV_Position { return float4(0,0,0,1); }\nfloat4 ps() : SV_Target0 { return float4(0,0,0,1); }\nPipeline Q { VertexShader = vs; PixelShader = ps; DepthBias = vs; }\n",
+    "float4 vs() : SV_Position { return float4(0,0,0,1); }\nfloat4 ps() : SV_Target0 { return float4(0,0,0,1); }\nPipeline Q { VertexShader = vs; PixelShader = ps; CullMode = Sideways; }\n",
+    "Buffer<float> g : register(t0, spaceX);\n",
+    "Buffer<float> g : packoffset(c0);\n",
+    "int f() { return 1; } }\n",
+];
+
+/// the same for lexer and preprocessor diagnostics: `lx_single#<i>`
+const LX_SINGLE: &[&str] = &[
+    "#include 1\n", "#include\n", "#include M\n", "#define M(a) a\nstatic int v = M;\n", "#if 1\n#else junk\n#endif\n", "#if 1\n#endif junk\n",
+    "#endif\n", "#else\n", "#elif 1\n", "static int v = 99999999999999999999;\n", "static int v = 0xfffffffffffffffff;\n",
+    "static int v = 0777777777777777777777777;\n", "static uint v = 4294967296u;\n", "static int v = 9223372036854775808l;\n",
+    "static uint v = 0x100000000u;\n", "static int v = 0x8000000000000000l;\n", "static uint v = 040000000000u;\n",
+    "static int v = 01000000000000000000000l;\n", "#include <abc\n", "#include \"abc\n", "static float v = 1e5#INF;\n", "static float v = 0.0#INF;\n",
+    "static float v = 1.5#INF + 0xABD + 0456 + 0xabd;\nstatic int w = not_there;\n", "static float v = 1.0q;\n", "#define M(a \n", "#define M(\n",
+    "#define 1 2\n", "#undef\n", "#undef 1\n", "#ifdef\n#endif\n", "#ifndef 1\n#endif\n", "#pragma\n", "#line 5\n", "#error stop\n", "#warning w\n",
+    "#if\n#endif\n", "#if (\n#endif\n", "#if 1 +\n#endif\n", "#define F(x) x\nstatic int v = F(1;\n", "#define F(x) x\nstatic int v = F(1, 2);\n",
+    "#define F() 1\nstatic int v = F(2);\n", "#define C a ##\nstatic int v = C;\n", "#define C ## a\nstatic int v = C;\n", "#if 1\n", "#ifdef X\n#else\n#else\n#endif\n",
+    "static int v = \"abc;\n", "static int v = \"abc\ndef\";\n", "static int v = 1; /* open\n", "static int v = 1 $ 2;\n", "static int v = 1.5e;\n", "static int v = 0x;\n",
+    "#if defined\n#endif\n", "#if defined(A, B)\n#endif\n", "#if defined(1)\n#endif\n", "#1 2\n", "Buffer<float> g : register(x0);\n",
+    "struct S { int m = 1; };\n", "static SamplerState g = StaticSampler { Filter = MIN_MAG_MIP_LINEAR; };\n",
+    "struct H { float x; };\nfloat hm() { H h; return h.missing; }\n", "void g1(int p) { }\nvoid g2() { }\nvoid g3() { g1(g2); }\n",
+    "void g4() { int l : register(t0); }\n",
+];
+
+fn own_family_names() -> Vec<String> {
+    let mut v: Vec<String> = OWN_FAMILIES.iter().map(|s| s.to_string()).collect();
+    for i in 0..TY_SINGLE.len() {
+        v.push(format!("ty_single#{}", i));
+    }
+    for i in 0..LX_SINGLE.len() {
+        v.push(format!("lx_single#{}", i));
+    }
+    v
+}
+
+struct OwnProg {
+    files: Files,
+    mode: Mode,
+    /// text whose first occurrence (file index, marker) is where the first diagnostic has to point; several = any of them
+    anchors: Vec<(usize, String)>,
+    /// (message index, file index, marker): where a note has to point
+    note: Option<(usize, usize, String)>,
+}
+
+fn own_program(family: &str, rng: &mut Rng) -> Option<OwnProg> {
+    let n = rng.below(1000);
+    let mut head = String::new();
+    for i in 0..rng.below(4) {
+        head.push_str(&match rng.below(3) {
+            0 => format!("// header line {}\n", i),
+            1 => "\n".to_string(),
+            _ => format!("/* block {} */\n", i),
+        });
+    }
+    let one = |src: String, anchors: Vec<(usize, String)>| Some(OwnProg { files: vec![("main.rssl".to_string(), src)], mode: Mode::NoPipeline, anchors, note: None });
+    let bad = format!("undeclared_{}", n);
+    if let Some(i) = family.strip_prefix("ty_single#") {
+        let src = TY_SINGLE.get(i.parse::<usize>().ok()?)?;
+        return Some(OwnProg {
+            files: vec![("main.rssl".to_string(), format!("{}{}[numthreads(1, 1, 1)]\nvoid entry()\n{{\n}}\nPipeline P\n{{\n    ComputeShader = entry;\n}}\n", head, src))],
+            mode: Mode::All,
+            anchors: vec![],
+            note: None,
+        });
+    }
+    if let Some(i) = family.strip_prefix("lx_single#") {
+        let src = LX_SINGLE.get(i.parse::<usize>().ok()?)?;
+        let before = if rng.chance(1, 2) { "int before_it() { return 0; }\n" } else { "" };
+        return Some(OwnProg { files: vec![("main.rssl".to_string(), format!("{}{}{}int f() {{ return 1; }}\n", head, before, src))], mode: Mode::NoPipeline, anchors: vec![], note: None });
+    }
+    match family {
+        "mx_obj_body" => one(format!("{}#define BAD_{} (1 + {})\nint f()\n{{\n    int a = 2;\n    return a + BAD_{};\n}}\n", head, n, bad, n), vec![(0, bad.clone())]),
+        "mx_fn_body" => one(
+            format!("{}#define ADDU_{}(a) ((a) + {})\nint f(int x)\n{{\n    return ADDU_{}(x) + ADDU_{}(1);\n}}\n", head, n, bad, n, n),
+            vec![(0, bad.clone())],
+        ),
+        "mx_fn_arg" => one(format!("{}#define ID_{}(a) (a)\nint f(int x)\n{{\n    return ID_{}(x) + ID_{}( {} );\n}}\n", head, n, n, n, bad), vec![(0, bad.clone())]),
+        "mx_nested" => one(
+            format!("{}#define INNER_{}(a) ((a) * {})\n#define OUTER_{}(b) (INNER_{}(b) + 1)\nint f(int x)\n{{\n    return OUTER_{}(x);\n}}\n", head, n, bad, n, n, n),
+            vec![(0, bad.clone())],
+        ),
+        "mx_def_in_include" => Some(OwnProg {
+            files: vec![
+                ("main.rssl".to_string(), format!("{}#include \"defs.h\"\nint f(int x)\n{{\n    return TWICE_{}(x);\n}}\n", head, n)),
+                ("defs.h".to_string(), format!("#pragma once\n// macros\n#define TWICE_{}(a) ((a) + {})\n", n, bad)),
+            ],
+            mode: Mode::NoPipeline,
+            anchors: vec![(1, bad.clone())],
+            note: None,
+        }),
+        "mx_use_in_include" => Some(OwnProg {
+            files: vec![
+                ("main.rssl".to_string(), format!("{}#define LIMIT_{} (4 + {})\n#include \"body.h\"\nint g() {{ return f(1); }}\n", head, n, bad)),
+                ("body.h".to_string(), format!("int f(int x)\n{{\n    return x + LIMIT_{};\n}}\n", n)),
+            ],
+            mode: Mode::NoPipeline,
+            anchors: vec![(0, bad.clone())],
+            note: None,
+        }),
+        "mx_type_error" => one(
+            format!("{}#define MUL_{}(a, b) ((a) * (b))\nstruct S {{ int m; }};\nint f()\n{{\n    S s;\n    return MUL_{}(s, 2);\n}}\n", head, n, n),
+            vec![],
+        ),
+        "mx_multiline_call" => one(
+            format!("{}#define SUM3_{}(a, b, c) ((a) + (b) + (c))\nint f(int x)\n{{\n    return SUM3_{}(x,\n        x + 1,\n        {});\n}}\n", head, n, n, bad),
+            vec![(0, bad.clone())],
+        ),
+        "mx_redef" => one(format!("{}#define DECL_{}(name) static int name = 0;\nDECL_{}(twice)\nint f() {{ return twice; }}\nDECL_{}(twice)\n", head, n, n, n), vec![]),
+        "mx_parse" => one(format!("{}#define OPEN_{} (1 +\nint f()\n{{\n    return OPEN_{} 2;\n}}\n", head, n, n), vec![]),
+        "mx_condition" => one(format!("{}#define LEVEL_{} 2 +\n#if LEVEL_{} > 1\nint f() {{ return 1; }}\n#endif\n", head, n, n), vec![]),
+        "mx_arity" => one(
+            format!("{}#define PAIR_{}(a, b) ((a) + (b))\nint f(int x)\n{{\n    return PAIR_{}(x{});\n}}\n", head, n, n, if rng.chance(1, 2) { "" } else { ", 1, 2" }),
+            vec![],
+        ),
+        "mx_unterminated_args" => one(format!("{}#define PAIR_{}(a, b) ((a) + (b))\nint f(int x)\n{{\n    return PAIR_{}(x, 1;\n}}\n", head, n, n), vec![]),
+        "mx_concat_bad" => one(
+            format!("{}#define GLUE_{}(a, b) a ## b\nint f(int x)\n{{\n    return GLUE_{}({}, {});\n}}\n", head, n, n, if rng.chance(1, 2) { "x" } else { "+" }, if rng.chance(1, 2) { "-" } else { ")" }),
+            vec![],
+        ),
+        "nt_redef_across_files" => Some(OwnProg {
+            files: vec![
+                ("main.rssl".to_string(), format!("{}#include \"types.h\"\nstruct Shared_{}\n{{\n    float b;\n}};\n", head, n)),
+                ("types.h".to_string(), format!("// shared types\n\nstruct Shared_{}\n{{\n    int a;\n}};\n", n)),
+            ],
+            mode: Mode::NoPipeline,
+            anchors: vec![(0, format!("Shared_{}", n))],
+            note: Some((1, 1, format!("Shared_{}", n))),
+        }),
+        "nt_redef_in_include" => Some(OwnProg {
+            files: vec![
+                ("main.rssl".to_string(), format!("{}static int g_value_{} = 1;\n#include \"more.h\"\n", head, n)),
+                ("more.h".to_string(), format!("\n\nstatic float g_value_{} = 2.0;\n", n)),
+            ],
+            mode: Mode::NoPipeline,
+            anchors: vec![(1, format!("g_value_{}", n))],
+            note: None,
+        }),
+        "nt_overload_across_files" => Some(OwnProg {
+            files: vec![
+                ("main.rssl".to_string(), format!("{}#include \"a.h\"\n#include \"b.h\"\nvoid caller()\n{{\n    int4 v = int4(0, 0, 0, 0);\n    pick_{}(v, v);\n}}\n", head, n)),
+                ("a.h".to_string(), format!("void pick_{}(int2 p, int3 q)\n{{\n}}\n", n)),
+                ("b.h".to_string(), format!("\nvoid pick_{}(int3 p, int2 q)\n{{\n}}\n", n)),
+            ],
+            mode: Mode::NoPipeline,
+            anchors: vec![(0, format!("pick_{}(v", n))],
+            note: Some((2, 2, format!("pick_{}", n))),
+        }),
+        "nt_same_file" => one(format!("{}int twice_{}(int p)\n{{\n    return p;\n}}\n\n\nint twice_{}(int p)\n{{\n    return p + 1;\n}}\n", head, n, n), vec![]),
+        "lt_no_final_newline" => {
+            let body = *rng.pick(&[
+                "int f() { return 1; }",
+                "int f() { return 1; } // trailing comment",
+                "int f() { return 1; } /* trailing */",
+                "int f() { return 1; }\n#define LAST 1",
+                "int f() { return 1; }\n#if 1\n#endif",
+                "int f() { return 1; }\n   ",
+                "int f() { return 1; }\n\\",
+                "int f() { return 1; } \\\n",
+            ]);
+            one(format!("{}{}", head, body), vec![])
+        }
+        "lt_include_last_line" => {
+            let inc = *rng.pick(&["int g() { return 1; }\n", "int g() { return 1; }", "", "// nothing", "#pragma once", "#pragma once\nint g() { return 1; }"]);
+            let last = *rng.pick(&["#include \"tail.h\"", "#include \"tail.h\"\n", "#include \"tail.h\" // last", "#  include \"tail.h\"  "]);
+            Some(OwnProg {
+                files: vec![("main.rssl".to_string(), format!("{}int f() {{ return 2; }}\n{}", head, last)), ("tail.h".to_string(), inc.to_string())],
+                mode: Mode::NoPipeline,
+                anchors: vec![],
+                note: None,
+            })
+        }
+        "lt_empty_files" => {
+            let main = *rng.pick(&["", "\n", "// only a comment", "/* only a comment */\n", "   \t\n\n", "#include \"empty.h\"", "#include \"empty.h\"\n#include \"empty.h\"\n"]);
+            let inc = *rng.pick(&["", "\n", "\\\n", "// c"]);
+            Some(OwnProg {
+                files: vec![("main.rssl".to_string(), main.to_string()), ("empty.h".to_string(), inc.to_string())],
+                mode: if rng.chance(1, 2) { Mode::NoPipeline } else { Mode::All },
+                anchors: vec![],
+                note: None,
+            })
+        }
+        "lt_error_at_eof" => {
+            let tail = match rng.below(6) {
+                0 => format!("int f() {{ return {}; }}", bad),
+                1 => format!("int f() {{ return 1; }}\nint g = {}", bad),
+                2 => "int f() {".to_string(),
+                3 => format!("int f() {{ return 1; }}\n{}", bad),
+                4 => "int f() { return 1; }\n#if 1".to_string(),
+                _ => "int f() { return 1; }\n@".to_string(),
+            };
+            let a = if tail.starts_with("int f() { return undeclared") { vec![(0, bad.clone())] } else { vec![] };
+            one(format!("{}{}", head, tail), a)
+        }
+        "lt_crlf" => {
+            let src = format!("{}struct S\n{{\n    int m;\n}};\nint f(int x)\n{{\n    S s;\n    return x + {};\n}}\n", head, bad);
+            one(src.replace('\n', "\r\n"), vec![(0, bad.clone())])
+        }
+        "lt_tabs_utf8" => one(
+            format!("{}int f(int x)\n{{\n\t\tint y = x; /* \u{e9}\u{4e2d}\u{1f600} */ \tint z = {};\n\treturn y;\n}}\n", head, bad),
+            vec![(0, bad.clone())],
+        ),
+        "lt_splice" => one(format!("{}int f(int x) \\\n{{ \\\n    int y = x; \\\r\n    return y + \\\n {}; \\\n}}\n", head, bad), vec![(0, bad.clone())]),
+        "lt_not_whitespace" => {
+            // bytes other languages treat as white space: rssl's lexer rejects all of them outside comments and strings
+            let b = *rng.pick(&["\u{c}", "\u{b}", "\u{a0}", "\u{feff}", "\r", "\u{2028}", "\u{0}", "\u{1a}"]);
+            let at_start = rng.chance(1, 3);
+            let src = if at_start { format!("{}int f() {{ return 1; }}\n", b) } else { format!("{}int f()\n{{\n    return 1;{} \n}}\n", head, b) };
+            one(src, vec![(0, b.to_string())])
+        }
+        "lt_comment_ends_file" => {
+            let tail = *rng.pick(&["// ends here", "// ends with a backslash \\", "// spliced \\\n still the comment", "/* closed */", "/* never closed", "/* never closed *", "/*/", "//"]);
+            one(format!("{}int f() {{ return 1; }}\n{}", head, tail), vec![])
+        }
+        "lt_directive_trivia" => one(
+            format!(
+                "{}/* before */ # /* after hash */ define /* after define */ K_{} /* before body */ 3 /* end */ // line\n  #\tif /* c */ K_{} /* c */ > /* c */ 2 /* c */\nint f() {{ return K_{}; }}\n\t# /* c */ else /* c */\nint f() {{ return @; }}\n# endif /* K */\n#define CAT_{}(a, b) a /* l */ ## /* r */ b\nint CAT_{}(g, h)() {{ return CAT_{}(f, )(); }}\n",
+                head, n, n, n, n, n, n
+            ),
+            vec![],
+        ),
+        "lt_angle_include" => Some(OwnProg {
+            files: vec![
+                ("main.rssl".to_string(), format!("{}#include <sub/inc.h>\n#include < spaced.h >\nint f() {{ return g() + h(); }}\n", head)),
+                ("sub/inc.h".to_string(), "int g() { return 1; }\n".to_string()),
+                (" spaced.h ".to_string(), "int h() { return 2; }\n".to_string()),
+            ],
+            mode: Mode::NoPipeline,
+            anchors: vec![],
+            note: None,
+        }),
+        "lt_tokens" => {
+            // every token shape next to every other: numbers with suffixes, strings, operators that could merge
+            let items = [
+                "0x1Fu", "017", "08", "1ul", "2LU", "3l", "1.5h", "2.0f", "3.0L", "1e3", "1.e+2", "0.5e-1f", "1.#INF", "true", "false", "x", "x1", "\"s t\"", "(x)", "x.y",
+                "x ++", "++ x", "x --", "- - x", "+ + x", "x + + 1", "x - - 1", "x < < 1", "x > > 1", "x < = 1", "x & & 1", "x | | 1", "x = = 1", "! = x", "x / / 2", "x / * 2 * / 3",
+                "a ? b : c", "a :: b", "a : : b", "x <<= 1", "x >>= 1", "x->y", "~x", "x % = 2", "x ^ = 2", "# #", "@",
+            ];
+            let mut body = String::new();
+            for _ in 0..rng.range(4, 10) {
+                body.push_str(&format!("    v = {};\n", rng.pick(&items)));
+            }
+            one(format!("{}int f(int x, int a, int b, int c, int v)\n{{\n{}    return v;\n}}\n", head, body), vec![])
+        }
+        "lt_ok_shapes" => {
+            let src = *rng.pick(&[
+                "template<typename T> T ident(T v) { return v; }\nint f(int a) { return ident<int>(a) >> 1 << 2 > 3 ? 1 : a >= 2 ? 1 : 0; }\n",
+                "Texture2D<float4> g_t;\nRWTexture2D<vector<float, 4> > g_u;\nvoid f() { g_u[uint2(0, 0)] = g_t.Load(int3(0, 0, 0)); }\n",
+                "static const float k[3] = { 1.0f, 2.0h, 3. };\nfloat f(uint i) { return k[i] / 2 /* half */ / 2; }\n",
+                "int f(int a, int b) { return a+++b + a---b + (a<b?a:b) + (a>b?a:b); }\n",
+                "#define EMPTY\n#define F() 7\n#define G(x) x\nint f() { return EMPTY F() + G(EMPTY 1) + G((1, 2)); }\n",
+            ]);
+            one(format!("{}{}", head, src), vec![])
+        }
+        _ => None,
+    }
+}
+
+/// a source of the diagnostics stream: `diag:<family>:<seed>` (C07's families) or `own:<family>:<seed>`
+fn family_source(kind: &str, family: &str, seed: u64) -> Option<Source> {
+    let mut r = Rng::new(seed);
+    if kind == "diag" {
+        let p = diag::diag_program(family, &mut r)?;
+        Some(Source { files: p.files, mode: Mode::All, layout: p.layout, tag: format!("diag:{}:{}", family, seed), clean: None, anchor: None, note_anchor: None })
+    } else {
+        let p = own_program(family, &mut r)?;
+        // where the first diagnostic has to point: the first marker that exists (exact position)
+        let anchor = p.anchors.iter().find_map(|(fi, m)| p.files[*fi].1.find(m.as_str()).map(|o| (*fi, o, o)));
+        let note_anchor = p.note.as_ref().and_then(|(b, fi, m)| p.files[*fi].1.find(m.as_str()).map(|o| (*b, *fi, o, o)));
+        Some(Source { files: p.files, mode: p.mode, layout: false, tag: format!("own:{}:{}", family, seed), clean: None, anchor, note_anchor })
+    }
+}
 
 struct Source {
     files: Files,
     mode: Mode,
+    /// compile with validate_layout_consistency(true)
+    layout: bool,
     tag: String,
     /// the files before the error was injected, and where the diagnostic has to point:
     /// (file index, lowest and highest admissible offset)
     clean: Option<Files>,
     anchor: Option<(usize, usize, usize)>,
+    /// where a further message (note) of the diagnostic has to point: (message index, file, lo, hi)
+    note_anchor: Option<(usize, usize, usize, usize)>,
 }
 
 /// where the diagnostic of an injected error belongs: the offending token when it is known exactly,
@@ -1138,12 +1618,20 @@ fn anchor_message_matches(tag: &str, base: &CompileOutcome) -> bool {
 }
 
 fn anchor_check(files: &Files, base: &CompileOutcome, anchor: (usize, usize, usize)) -> Result<(), String> {
+    anchor_check_block(files, base, 0, anchor)
+}
+
+/// message number `block` of the diagnostic (0 = the error, 1.. = its notes) has to point into `anchor`
+fn anchor_check_block(files: &Files, base: &CompileOutcome, block: usize, anchor: (usize, usize, usize)) -> Result<(), String> {
     let (fi, lo, hi) = anchor;
     let what = format!("{} offsets {}..{}", files[fi].0, lo, hi);
     match base {
         CompileOutcome::Err(e) => {
             let blocks = parse_diag(e).ok_or_else(|| format!("[diagnostic not at the injected construct] unpositioned text {}", clip(e, 80)))?;
-            match &blocks[0].loc {
+            if block >= blocks.len() {
+                return Err(format!("[diagnostic not at the injected construct] message {} is missing ({} messages)", block, blocks.len()));
+            }
+            match &blocks[block].loc {
                 Some((f, l, c)) => {
                     if *f != files[fi].0 {
                         return Err(format!("[diagnostic names the wrong file] {}:{}:{} for an error in {}", f, l, c, what));
@@ -1153,7 +1641,7 @@ fn anchor_check(files: &Files, base: &CompileOutcome, anchor: (usize, usize, usi
                         _ => Err(format!("[diagnostic not at the injected construct] {}:{}:{} for an error at {}", f, l, c, what)),
                     }
                 }
-                None => Err(format!("[diagnostic not at the injected construct] no position for an error at {} ({})", what, blocks[0].msg)),
+                None => Err(format!("[diagnostic not at the injected construct] no position for an error at {} ({})", what, blocks[block].msg)),
             }
         }
         CompileOutcome::Ok(_) => Err("[diagnostic not at the injected construct] the erroneous program is accepted".into()),
@@ -1195,7 +1683,7 @@ fn gen_source(rng: &mut Rng, hist: &mut Hist) -> Source {
     } else {
         hist.add("inject=none");
     }
-    Source { files, mode, tag, clean, anchor }
+    Source { files, mode, layout: false, tag, clean, anchor, note_anchor: None }
 }
 
 // ------------------------------------------------------------------------------------------------
@@ -1245,13 +1733,159 @@ fn physical_line_starts(text: &str) -> Vec<usize> {
 
 struct FileInfo {
     bounds: Vec<Boundary>,
+    /// the whole file lexes (otherwise `bounds` covers the part before the lexer error)
+    complete: bool,
 }
 
-fn analyse(files: &Files, macros: &[String]) -> Vec<Option<FileInfo>> {
+fn analyse(files: &Files, macros: &[String]) -> Vec<FileInfo> {
     files
         .iter()
-        .map(|(_, text)| lex_file(text).map(|toks| FileInfo { bounds: boundaries(text, &toks, macros) }))
+        .map(|(_, text)| {
+            let (toks, complete) = lex_prefix(text);
+            FileInfo { bounds: boundaries(text, &toks, macros), complete }
+        })
         .collect()
+}
+
+/// places where whole lines may be inserted
+fn line_starts_of(text: &str, inf: &FileInfo) -> Vec<usize> {
+    if inf.complete { inf.bounds.iter().filter(|b| b.line_start).map(|b| b.off).collect() } else { physical_line_starts(text) }
+}
+
+fn random_k(rng: &mut Rng) -> usize {
+    match rng.below(8) {
+        0 => 0,
+        1 => 1,
+        2 => 50,
+        _ => rng.range(1, 50) as usize,
+    }
+}
+
+fn k_bucket(k: usize) -> &'static str {
+    if k == 0 { "0" } else if k == 1 { "1" } else if k < 10 { "2-9" } else if k < 50 { "10-49" } else { "50" }
+}
+
+/// trivia without any line break (the column of everything later on the line moves by its length)
+fn pick_inline(rng: &mut Rng, b: &Boundary) -> String {
+    let mut t = rng.pick(&[" ", "  ", "\t", "/* c */", "/**/", " /* x */ ", "/*/ y */", "/***/"]).to_string();
+    if b.after_slash && t.starts_with('/') {
+        t.insert(0, ' ');
+    }
+    t
+}
+
+/// One edit aimed at the construct a diagnostic points to. `targets` = (file, offset) of the located messages.
+/// Returns (edited file, edits, whole-line mode, label).
+fn targeted_edit(
+    rng: &mut Rng,
+    files: &Files,
+    info: &[FileInfo],
+    targets: &[(usize, usize)],
+    which: usize,
+) -> Option<(usize, Edits, Option<(usize, usize)>, &'static str)> {
+    let (fi, off) = *rng.pick(targets);
+    let text = &files[fi].1;
+    let inf = &info[fi];
+    let starts = line_starts_of(text, inf);
+    let bidx_at_or_before = |o: usize| inf.bounds.iter().rposition(|b| b.off <= o);
+    match which {
+        0 => {
+            // k lines somewhere before the construct
+            let c: Vec<usize> = starts.iter().copied().filter(|p| *p <= off).collect();
+            if c.is_empty() {
+                return None;
+            }
+            let p = *rng.pick(&c);
+            let k = random_k(rng);
+            Some((fi, vec![(p, pad_lines(rng, k))], Some((p, k)), "lines-before"))
+        }
+        1 => {
+            // k lines directly before the line of the construct
+            let p = starts.iter().copied().filter(|p| *p <= off).max()?;
+            let k = random_k(rng);
+            Some((fi, vec![(p, pad_lines(rng, k))], Some((p, k)), "lines-directly-before"))
+        }
+        2 => {
+            // k lines after the construct: nothing moves
+            let p = starts.iter().copied().filter(|p| *p > off).min()?;
+            let k = random_k(rng);
+            Some((fi, vec![(p, pad_lines(rng, k))], Some((p, k)), "lines-after"))
+        }
+        3 => {
+            // k lines between two located messages of the same file: one moves, the other does not
+            let same: Vec<usize> = targets.iter().filter(|t| t.0 == fi).map(|t| t.1).collect();
+            let lo = *same.iter().min()?;
+            let hi = *same.iter().max()?;
+            let c: Vec<usize> = starts.iter().copied().filter(|p| *p > lo && *p <= hi).collect();
+            if c.is_empty() {
+                return None;
+            }
+            let p = *rng.pick(&c);
+            let k = random_k(rng);
+            Some((fi, vec![(p, pad_lines(rng, k))], Some((p, k)), "lines-between-locations"))
+        }
+        4 => {
+            // trivia without a line break earlier on the line of the construct: same line, column + length
+            let line_begin = text.as_bytes()[..off.min(text.len())].iter().rposition(|c| *c == b'\n').map(|i| i + 1).unwrap_or(0);
+            let c: Vec<&Boundary> = inf.bounds.iter().filter(|b| b.off >= line_begin && b.off <= off).collect();
+            if c.is_empty() {
+                return None;
+            }
+            let b = *rng.pick(&c);
+            Some((fi, vec![(b.off, pick_inline(rng, b))], None, "inline-before-on-line"))
+        }
+        5 => {
+            // any trivia directly before the construct
+            let i = bidx_at_or_before(off)?;
+            let b = &inf.bounds[i];
+            let (_, t) = pick_trivia(rng, b);
+            Some((fi, vec![(b.off, t)], None, if b.off == off { "trivia-at-construct" } else { "trivia-nearest-before" }))
+        }
+        6 => {
+            // trivia inside the construct: some of the next boundaries after its first token
+            let c: Vec<&Boundary> = inf.bounds.iter().filter(|b| b.off > off).take(6).collect();
+            if c.is_empty() {
+                return None;
+            }
+            let n = 1 + rng.below(3) as usize;
+            let mut picked: Vec<&Boundary> = (0..n).map(|_| *rng.pick(&c)).collect();
+            picked.sort_by_key(|b| b.off);
+            picked.dedup_by_key(|b| b.off);
+            let edits = picked.iter().map(|b| (b.off, pick_trivia(rng, b).1)).collect();
+            Some((fi, edits, None, "trivia-inside"))
+        }
+        7 => {
+            // many insertions around the construct
+            let i = bidx_at_or_before(off).unwrap_or(0);
+            let lo = i.saturating_sub(10);
+            let hi = (i + 10).min(inf.bounds.len());
+            let mut edits: Edits = Vec::new();
+            for b in &inf.bounds[lo..hi] {
+                if rng.chance(1, 2) {
+                    edits.push((b.off, pick_trivia(rng, b).1));
+                }
+            }
+            if edits.is_empty() {
+                return None;
+            }
+            Some((fi, edits, None, "trivia-around"))
+        }
+        _ => {
+            // k lines in a file none of the messages is in: nothing moves
+            let others: Vec<usize> = (0..files.len()).filter(|i| targets.iter().all(|t| t.0 != *i)).collect();
+            if others.is_empty() {
+                return None;
+            }
+            let ofi = *rng.pick(&others);
+            let st = line_starts_of(&files[ofi].1, &info[ofi]);
+            if st.is_empty() {
+                return None;
+            }
+            let p = *rng.pick(&st);
+            let k = random_k(rng);
+            Some((ofi, vec![(p, pad_lines(rng, k))], Some((p, k)), "lines-in-another-file"))
+        }
+    }
 }
 
 fn emit(out: &mut Out, hist: &mut Hist, r: MetaResult) {
@@ -1262,13 +1896,15 @@ fn emit(out: &mut Out, hist: &mut Hist, r: MetaResult) {
     out.case(&r.request, &r.obs, &r.oracle);
 }
 
-fn run_source(src: &Source, tgt: Tgt, rng: &mut Rng, out: &mut Out, hist: &mut Hist, per_source: usize) {
+fn run_source(src: &Source, tgt: Tgt, rng: &mut Rng, out: &mut Out, hist: &mut Hist, per_source: usize, targeted: usize) {
     let files = &src.files;
     let mode = src.mode.clone();
-    let compile_fn = |f: &Files| compile_files(f, tgt, &mode);
+    let layout = src.layout;
+    let compile_fn = |f: &Files| compile_files(f, tgt, &mode, layout);
     let base = compile_fn(files);
     let v0 = verdict(&base, files);
     hist.add(&format!("base={}", v0.base.split(':').take(if v0.base.starts_with("err:") { 1 } else { 2 }).collect::<Vec<_>>().join(":")));
+    let mut targets: Vec<(usize, usize)> = Vec::new();
     if let CompileOutcome::Err(e) = &base {
         if let Some(b) = parse_diag(e) {
             hist.add(&format!("message={}", clip(&b[0].msg, 40).chars().filter(|c| !c.is_ascii_digit()).collect::<String>()));
@@ -1278,11 +1914,25 @@ fn run_source(src: &Source, tgt: Tgt, rng: &mut Rng, out: &mut Out, hist: &mut H
             } else {
                 hist.add("diagnostic-in=nowhere");
             }
+            for blk in b.iter().skip(1) {
+                hist.add(&format!("further-message={}: {}", blk.sev, clip(&blk.msg, 30).chars().filter(|c| !c.is_ascii_digit()).collect::<String>()));
+            }
+            if let Ok(pos) = diag_positions(&b, files) {
+                for p in pos.into_iter().flatten() {
+                    if !targets.contains(&p) {
+                        targets.push(p);
+                    }
+                }
+                let nfiles: std::collections::BTreeSet<usize> = targets.iter().map(|t| t.0).collect();
+                hist.add(&format!("located-messages={} in {} file(s)", targets.len().min(4), nfiles.len()));
+            }
+        } else {
+            hist.add(&format!("message(unpositioned text)={}", clip(e, 40)));
         }
     }
     let macros = all_fn_macros(files);
     let info = analyse(files, &macros);
-    let prefix = format!("C14.meta\t{}\t{}\t{}", tgt.name(), mode.show(), enc_files(files));
+    let prefix = format!("C14.meta\t{}\t{}\t{}", tgt.name(), show_mode(&mode, layout), enc_files(files));
     // the diagnostic of an injected error names the file it was injected into and the injected construct
     if let (Some(clean), Some(anchor)) = (&src.clean, src.anchor) {
         if matches!(base, CompileOutcome::Ok(_)) {
@@ -1297,37 +1947,62 @@ fn run_source(src: &Source, tgt: Tgt, rng: &mut Rng, out: &mut Out, hist: &mut H
             let r = run_anchor(&prefix, files, &base, anchor, &tag);
             emit(out, hist, r);
         }
+    } else if let (None, Some(anchor)) = (&src.clean, src.anchor) {
+        // hand-written family that says where its diagnostic belongs
+        hist.add("anchor-case");
+        let tag = format!("{},anchor:{}:{}:{}", src.tag, anchor.0, anchor.1, anchor.2);
+        let r = run_anchor(&prefix, files, &base, anchor, &tag);
+        emit(out, hist, r);
     }
-    let usable: Vec<usize> = (0..files.len()).filter(|i| info[*i].is_some()).collect();
-    if usable.is_empty() {
-        hist.add("source=unlexable");
+    if let Some((block, fi, lo, hi)) = src.note_anchor {
+        hist.add("anchor-case(note)");
+        let tag = format!("{},anchorb:{}:{}:{}:{}", src.tag, block, fi, lo, hi);
+        let r = run_anchor_block(&prefix, files, &base, block, (fi, lo, hi), &tag);
+        emit(out, hist, r);
+    }
+    if info.iter().any(|i| !i.complete) {
+        hist.add("source=has-unlexable-file");
+    }
+    // edits aimed at the construct the diagnostic points to
+    if !targets.is_empty() {
+        for case in 0..targeted {
+            let which = if targeted >= 9 { case % 9 } else { rng.below(9) as usize };
+            let Some((fi, edits, lines_mode, label)) = targeted_edit(rng, files, &info, &targets, which) else {
+                hist.add("targeted-edit=none(no such place)");
+                continue;
+            };
+            hist.add(&format!("targeted-edit={}", label));
+            if let Some((_, k)) = lines_mode {
+                hist.add(&format!("edit=lines k={}", k_bucket(k)));
+            }
+            hist.add(if fi == 0 { "edited=entry-file" } else { "edited=included-file" });
+            let text = &files[fi].1;
+            let ctx_of = |e: &Edits| describe_edits(text, e, &macros);
+            let tag = match lines_mode {
+                Some((p, k)) => format!("{},{},lines:{}@{}", src.tag, label, k, p),
+                None => format!("{},{},trivia:{}", src.tag, label, edits.len()),
+            };
+            let r = run_meta_files(&prefix, files, fi, &edits, &tag, &compile_fn, &base, lines_mode, &ctx_of);
+            emit(out, hist, r);
+        }
     }
     for case in 0..per_source {
-        // unlexable files still take whole-line insertions at physical line starts
-        let fi = if usable.is_empty() || rng.chance(1, 10) { rng.below(files.len() as u64) as usize } else { *rng.pick(&usable) };
+        let fi = rng.below(files.len() as u64) as usize;
         let text = &files[fi].1;
-        let lines_case = case % 3 == 0 || info[fi].is_none();
+        let inf = &info[fi];
+        let lines_case = case % 3 == 0 || inf.bounds.is_empty() || (!inf.complete && rng.chance(1, 2));
         let ctx_of = |e: &Edits| describe_edits(text, e, &macros);
         if lines_case {
-            let starts: Vec<usize> = match &info[fi] {
-                Some(inf) => inf.bounds.iter().filter(|b| b.line_start).map(|b| b.off).collect(),
-                None => physical_line_starts(text),
-            };
+            let starts = line_starts_of(text, inf);
             let p = *rng.pick(&starts);
-            let k = match rng.below(8) {
-                0 => 0,
-                1 => 1,
-                2 => 50,
-                _ => rng.range(1, 50) as usize,
-            };
+            let k = random_k(rng);
             let edits: Edits = vec![(p, pad_lines(rng, k))];
-            hist.add(&format!("edit=lines k={}", if k == 0 { "0".to_string() } else if k == 1 { "1".into() } else if k < 10 { "2-9".into() } else if k < 50 { "10-49".into() } else { "50".into() }));
+            hist.add(&format!("edit=lines k={}", k_bucket(k)));
             hist.add(if fi == 0 { "edited=entry-file" } else { "edited=included-file" });
             let tag = format!("{},lines:{}@{}", src.tag, k, p);
             let r = run_meta_files(&prefix, files, fi, &edits, &tag, &compile_fn, &base, Some((p, k)), &ctx_of);
             emit(out, hist, r);
         } else {
-            let inf = info[fi].as_ref().unwrap();
             let many = rng.chance(1, 6);
             let count = if many { (inf.bounds.len() / 3).max(2) } else if rng.chance(1, 4) { 3 } else { 1 };
             let mut idx: Vec<usize> = (0..count).map(|_| rng.below(inf.bounds.len() as u64) as usize).collect();
@@ -1347,6 +2022,269 @@ fn run_source(src: &Source, tgt: Tgt, rng: &mut Rng, out: &mut Out, hist: &mut H
             let r = run_meta_files(&prefix, files, fi, &edits, &tag, &compile_fn, &base, None, &ctx_of);
             emit(out, hist, r);
         }
+    }
+}
+
+
+// ------------------------------------------------------------------------------------------------
+// C14.lex: the lexer alone (the part of the property the Lean theorem `trivia_insensitive_lexer` covers)
+// ------------------------------------------------------------------------------------------------
+
+fn show_token(t: &Token) -> String {
+    use rssl::text::tokens::FollowedBy;
+    let fb = |f: &FollowedBy| match f {
+        FollowedBy::Token => "T",
+        FollowedBy::Whitespace => "W",
+    };
+    match t {
+        Token::Id(id) => format!("Id:{}", hex(id.0.as_bytes())),
+        Token::LiteralInt(v) => format!("Int:{}", v),
+        Token::LiteralIntUnsigned32(v) => format!("IntU32:{}", v),
+        Token::LiteralIntUnsigned64(v) => format!("IntU64:{}", v),
+        Token::LiteralIntSigned64(v) => format!("IntS64:{}", v),
+        Token::LiteralFloat(v) => format!("Float:{:016x}", v.to_bits()),
+        Token::LiteralFloat16(v) => format!("Float16:{:08x}", v.to_bits()),
+        Token::LiteralFloat32(v) => format!("Float32:{:08x}", v.to_bits()),
+        Token::LiteralFloat64(v) => format!("Float64:{:016x}", v.to_bits()),
+        Token::LiteralString(s) => format!("String:{}", hex(s.as_bytes())),
+        Token::HeaderName(s) => format!("HeaderName:{}", hex(s.as_bytes())),
+        Token::ReservedWord(s) => format!("ReservedWord:{}", hex(s.as_bytes())),
+        Token::LeftAngleBracket(f) => format!("LeftAngleBracket:{}", fb(f)),
+        Token::RightAngleBracket(f) => format!("RightAngleBracket:{}", fb(f)),
+        other => format!("{:?}", other),
+    }
+}
+
+type RawLex = (Vec<(Token, usize, usize)>, Option<(String, usize)>);
+
+fn show_lex(r: &RawLex) -> String {
+    let mut obs = r.0.iter().map(|(t, s, e)| format!("{} {} {}", show_token(t), s, e)).collect::<Vec<_>>().join(";");
+    if let Some((reason, off)) = &r.1 {
+        obs.push_str(&format!(" !err {} {}", reason, off));
+    }
+    obs
+}
+
+/// Is `w` a trivia text: on its own it lexes completely into whitespace tokens, and it ends every comment it
+/// opens (a line comment must bring its line break) — so it lexes the same whatever follows
+fn is_trivia_text(w: &str) -> bool {
+    let (toks, err) = lex_raw(w, false);
+    if err.is_some() || !toks.iter().all(|(t, _, _)| t.is_whitespace()) {
+        return false;
+    }
+    match toks.last() {
+        Some((Token::Comment, s, _)) => !w[*s..].starts_with("//"),
+        _ => true,
+    }
+}
+
+/// May `w` be inserted at offset `p` of a text whose real tokens are `orig` under the property (and under the
+/// side conditions of the Lean theorem): `p` is 0 or the end of a token that is not `<`, `>`, a line comment,
+/// and not `/` when `w` starts with `/`
+fn lex_insertion_allowed(text: &str, orig: &RawLex, p: usize, w: &str) -> Result<(), &'static str> {
+    if !is_trivia_text(w) {
+        return Err("not-trivia");
+    }
+    if p == 0 {
+        return Ok(());
+    }
+    let Some((t, s, _)) = orig.0.iter().find(|(_, s, e)| *e == p && e > s) else { return Err("not-a-boundary") };
+    match t {
+        Token::LeftAngleBracket(_) | Token::RightAngleBracket(_) => Err("after-angle-bracket"),
+        Token::Comment if text[*s..].starts_with("//") => Err("after-line-comment"),
+        Token::ForwardSlash if w.starts_with('/') => Err("slash-then-comment"),
+        _ => Ok(()),
+    }
+}
+
+/// `1.xxx`, `2.0fx`, `1e5x`: a complete floating literal directly followed by `x`. The float lexer gives up
+/// on it (so that `1.xxx` can be a swizzle of the integer `1`) and the text is lexed again as an integer
+/// literal + `.` + ...: the first token depends on text several tokens further on. Returns the length of
+/// the float part.
+fn swizzled_literal(b: &[u8]) -> Option<usize> {
+    let digits = |mut i: usize| {
+        while i < b.len() && b[i].is_ascii_digit() {
+            i += 1;
+        }
+        i
+    };
+    let mut i = digits(0);
+    if i == 0 {
+        return None;
+    }
+    let mut frac_or_exp = false;
+    if i < b.len() && b[i] == b'.' {
+        frac_or_exp = true;
+        i = digits(i + 1);
+    }
+    if i < b.len() && (b[i] == b'e' || b[i] == b'E') {
+        let mut j = i + 1;
+        if j < b.len() && (b[j] == b'+' || b[j] == b'-') {
+            j += 1;
+        }
+        let k = digits(j);
+        if k > j {
+            frac_or_exp = true;
+            i = k;
+        }
+    }
+    if b[i..].starts_with(b"#INF") {
+        i += 4;
+    }
+    if i < b.len() && matches!(b[i], b'h' | b'H' | b'f' | b'F' | b'l' | b'L') {
+        i += 1;
+    }
+    if frac_or_exp && i < b.len() && b[i] == b'x' { Some(i) } else { None }
+}
+
+fn run_lex_case(text: &str, edits: &Edits, tag: &str, out: &mut Out, hist: &mut Hist) {
+    let req = format!("C14.lex\t{}\t{}\t{}", hex(text.as_bytes()), enc_edits(edits), tag);
+    let orig = lex_raw(text, true);
+    let edited_text = apply_edits(text, edits);
+    let edited = lex_raw(&edited_text, true);
+    let obs = show_lex(&edited);
+    for (t, _, _) in &edited.0 {
+        let n = show_token(t);
+        hist.add(&format!("lex-tok={}", n.split(':').next().unwrap_or("")));
+    }
+    if let Some((r, _)) = &edited.1 {
+        hist.add(&format!("lex-err={}", r));
+    }
+    let mut why = None;
+    let mut last = None;
+    for (p, w) in edits {
+        if last == Some(*p) {
+            why = Some("two-edits-at-one-place");
+        }
+        last = Some(*p);
+        if let Err(e) = lex_insertion_allowed(text, &orig, *p, w) {
+            why = Some(e);
+        }
+        // the third side condition of the theorem: no swizzled numeric literal (`1.xxx`) starts before the insertion
+        if orig.0.iter().any(|(t, s, _)| *s < *p && matches!(t, Token::LiteralInt(_)) && swizzled_literal(&text.as_bytes()[*s..]).is_some()) {
+            why = Some("after-swizzled-literal");
+        }
+        // an insertion into the part of a rejected text that was never lexed is not at a token boundary
+        if let Some((_, _)) = &orig.1 {
+            let reached = orig.0.last().map(|t| t.2).unwrap_or(0);
+            if *p > reached {
+                why = Some("beyond-lexer-error");
+            }
+        }
+    }
+    let oracle = match why {
+        Some(w) => {
+            hist.add(&format!("lex-edit=outside-the-property({})", w));
+            "ok".to_string()
+        }
+        None => {
+            hist.add(if orig.1.is_some() { "lex-edit=judged(rejected text)" } else { "lex-edit=judged(accepted text)" });
+            let keep = |r: &RawLex, shift: bool| -> Vec<(String, usize, usize)> {
+                r.0.iter()
+                    .filter(|(t, s, e)| !t.is_whitespace() && e > s)
+                    .map(|(t, s, e)| if shift { (show_token(t), move_through(edits, *s), move_through_end(edits, *e)) } else { (show_token(t), *s, *e) })
+                    .collect()
+            };
+            let want = keep(&orig, true);
+            let got = keep(&edited, false);
+            let want_err = orig.1.as_ref().map(|(r, o)| (r.clone(), move_through(edits, *o)));
+            if want != got {
+                let i = (0..want.len().min(got.len())).find(|i| want[*i] != got[*i]).unwrap_or(want.len().min(got.len()));
+                format!(
+                    "FAIL:[lexer] non-trivia token {} changed: {:?} became {:?} ({} -> {} tokens)",
+                    i,
+                    want.get(i),
+                    got.get(i),
+                    want.len(),
+                    got.len()
+                )
+            } else if want_err != edited.1 {
+                format!("FAIL:[lexer] lexer verdict changed: {:?} became {:?}", want_err, edited.1)
+            } else {
+                "ok".to_string()
+            }
+        }
+    };
+    out.case(&req, &obs, &oracle);
+}
+
+/// end offsets: an insertion exactly at the end of a token does not belong to it
+fn move_through_end(edits: &Edits, e: usize) -> usize {
+    e + edits.iter().filter(|(p, _)| *p < e).map(|(_, t)| t.len()).sum::<usize>()
+}
+
+const SOUP: &[&str] = &[
+    "a", "x1", "_u", "int", "return", "auto", "e", "E", "f", "u", "l", "x", "INF", "0", "1", "9", "08", "017", "0x1F", "0x", "1u", "1ul", "2LU", "3l", "1.5", "1.", "2.0f", "1.0h",
+    "3.0L", "1e3", "1e", "1e+", "1.e-2", "1.#INF", "1.#", "1.0#IN", "\"s\"", "\"a b\"", "\"", "'", "+", "++", "+=", "-", "--", "-=", "*", "*=", "/", "/=", "%", "=", "==", "!", "!=",
+    "&", "&&", "|", "||", "^", "~", "<", ">", "<<", ">>", "<=", ">=", "(", ")", "[", "]", "{", "}", ";", ",", ".", ":", "::", "?", "#", "##", "@", "$", "`", "\\", "\u{e9}",
+    " ", "  ", "\t", "\n", "\r\n", "\r", "\\\n", "\\\r\n", "/**/", "/* c */", "/*/ c */", "/***/", "/* \n */", "// c\n", "//\n", "// c", "// c \\\n d\n", "/* open", "/*/", "\u{c}", "\u{a0}", "\u{feff}",
+];
+
+fn gen_soup(rng: &mut Rng) -> String {
+    let mut s = String::new();
+    let n = rng.range(1, 12);
+    for _ in 0..n {
+        s.push_str(*rng.pick(SOUP));
+        if rng.chance(1, 3) {
+            s.push_str(*rng.pick(&[" ", " ", "\n", "\t"]));
+        }
+    }
+    s
+}
+
+/// texts the lexer alone sees: token soups and pieces of the generated files, edited at real token boundaries
+/// (mostly where the property allows it, sometimes elsewhere — those cases only tie the model to the code)
+fn run_lex_cases(rng: &mut Rng, n: u64, sources: &[Files], out: &mut Out, hist: &mut Hist) {
+    const NEAR_TRIVIA: &[&str] = &["\r", "\u{c}", "\u{b}", "\u{a0}", "\u{feff}", "\\", "/*", "// x", "/*/", "/", "*/", "\\ \n", " \\", "/* a */ /", "\n\\"];
+    for _ in 0..n {
+        let text = if !sources.is_empty() && rng.chance(1, 4) {
+            let f = rng.pick(sources);
+            let t = &rng.pick(f).1;
+            // a window of whole lines, at most ~400 bytes
+            let starts = physical_line_starts(t);
+            let a = *rng.pick(&starts);
+            let mut b = (a + 400).min(t.len());
+            while !t.is_char_boundary(b) {
+                b -= 1;
+            }
+            t[a..b].to_string()
+        } else {
+            gen_soup(rng)
+        };
+        hist.add(if text.len() > 60 { "lex-text=file-window" } else { "lex-text=soup" });
+        let orig = lex_raw(&text, true);
+        hist.add(if orig.1.is_some() { "lex-base=rejected" } else { "lex-base=accepted" });
+        // token ends of the original (0 included), with what precedes them
+        let mut ends: Vec<(usize, bool)> = vec![(0, false)];
+        for (t, s, e) in &orig.0 {
+            if e > s {
+                ends.push((*e, *t == Token::ForwardSlash));
+            }
+        }
+        let count = if rng.chance(1, 3) { rng.range(2, 4) as usize } else { 1 };
+        let mut edits: Edits = Vec::new();
+        for _ in 0..count {
+            let (p, after_slash) = if rng.chance(1, 12) && !text.is_empty() {
+                // anywhere, also inside tokens
+                let mut p = rng.below(text.len() as u64 + 1) as usize;
+                while !text.is_char_boundary(p) {
+                    p -= 1;
+                }
+                (p, false)
+            } else {
+                *rng.pick(&ends)
+            };
+            let w = if rng.chance(1, 8) {
+                rng.pick(NEAR_TRIVIA).to_string()
+            } else {
+                let b = Boundary { off: p, newline_ok: true, after_slash: after_slash && rng.chance(5, 6), line_start: false, ctx: String::new() };
+                pick_trivia(rng, &b).1
+            };
+            edits.push((p, w));
+        }
+        edits.sort_by_key(|e| e.0);
+        edits.dedup_by_key(|e| e.0);
+        run_lex_case(&text, &edits, "gen", out, hist);
     }
 }
 
@@ -1721,7 +2659,7 @@ fn replay(lines: Vec<String>, out: &mut Out, hist: &mut Hist) {
                 }
             }
             "C14.meta" if f.len() >= 6 => {
-                let (Some(tgt), Some(mode), Some(files), Ok(fi), Some(edits)) =
+                let (Some(tgt), Some((mode, layout)), Some(files), Ok(fi), Some(edits)) =
                     (Tgt::parse(f[1]), parse_mode(f[2]), dec_files(f[3]), f[4].parse::<usize>(), dec_edits(f[5]))
                 else {
                     continue;
@@ -1730,9 +2668,17 @@ fn replay(lines: Vec<String>, out: &mut Out, hist: &mut Hist) {
                     continue;
                 }
                 let tag = f.get(8).copied().unwrap_or("replay");
-                let compile_fn = |fs: &Files| compile_files(fs, tgt, &mode);
+                let compile_fn = |fs: &Files| compile_files(fs, tgt, &mode, layout);
                 let base = compile_fn(&files);
-                let prefix = format!("C14.meta\t{}\t{}\t{}", tgt.name(), mode.show(), enc_files(&files));
+                let prefix = format!("C14.meta\t{}\t{}\t{}", tgt.name(), show_mode(&mode, layout), enc_files(&files));
+                if let Some(a) = tag.split(',').find_map(|t| t.strip_prefix("anchorb:")) {
+                    let v: Vec<usize> = a.split(':').filter_map(|x| x.parse().ok()).collect();
+                    if v.len() == 4 && v[1] < files.len() && edits.is_empty() {
+                        let r = run_anchor_block(&prefix, &files, &base, v[0], (v[1], v[2], v[3]), tag);
+                        emit(out, hist, r);
+                        continue;
+                    }
+                }
                 if let Some(a) = tag.split(',').find_map(|t| t.strip_prefix("anchor:")) {
                     let v: Vec<usize> = a.split(':').filter_map(|x| x.parse().ok()).collect();
                     if v.len() == 3 && v[0] < files.len() && edits.is_empty() {
@@ -1752,6 +2698,22 @@ fn replay(lines: Vec<String>, out: &mut Out, hist: &mut Hist) {
                 let r = run_meta_files(&prefix, &files, fi, &edits, tag, &compile_fn, &base, lines_mode, &|e| describe_edits(&text, e, &macros));
                 emit(out, hist, r);
             }
+            // manual probing only: the full outcome of one compilation
+            "C14.show" if f.len() >= 4 => {
+                if let (Some(tgt), Some((mode, layout)), Some(files)) = (Tgt::parse(f[1]), parse_mode(f[2]), dec_files(f[3])) {
+                    let o = match compile_files(&files, tgt, &mode, layout) {
+                        CompileOutcome::Ok(p) => format!("ok: {}", p.iter().map(|x| one_line(&x.text())).collect::<Vec<_>>().join(" ### ")),
+                        CompileOutcome::Err(e) => format!("err: {}", one_line(&e)),
+                        CompileOutcome::Panic(p) => format!("panic: {}", p),
+                    };
+                    out.case(&line, &o, "SKIP:probe");
+                }
+            }
+            "C14.lex" if f.len() >= 3 => {
+                if let (Some(text), Some(edits)) = (unhex(f[1]).and_then(|b| String::from_utf8(b).ok()), dec_edits(f[2])) {
+                    run_lex_case(&text, &edits, f.get(3).copied().unwrap_or("replay"), out, hist);
+                }
+            }
             "C14.disk" if f.len() >= 5 => {
                 let (Some(tgt), Some((root, entry)), Some(edits)) = (Tgt::parse(f[1]), f[2].split_once('|'), dec_edits(f[4])) else { continue };
                 run_disk(root, entry, tgt, Some((f[3].to_string(), edits)), &mut rng, 0, out, hist);
@@ -1769,6 +2731,13 @@ pub fn run(args: &Args, out: &mut Out) {
         return;
     }
     let thorough = args.thorough();
+    // `lexonly` (extra argument): only the lexer stream, `--n` cases (used when hunting for side conditions)
+    if args.extra.iter().any(|e| e == "lexonly") {
+        let mut rng = Rng::new(args.seed);
+        run_lex_cases(&mut rng, args.n.unwrap_or(100000), &[], out, &mut hist);
+        out.stat(&format!("{{\"mode\":\"lexonly\",\"hist\":{}}}", hist.json()));
+        return;
+    }
     let n_sources = args.n.unwrap_or(if thorough { 5000 } else { 500 });
     let per_source = if thorough { 12 } else { 9 };
     let mut rng = Rng::new(args.seed);
@@ -1781,9 +2750,49 @@ pub fn run(args: &Args, out: &mut Out) {
         let tgt = ALL_TARGETS[(i % 4) as usize];
         hist.add(&format!("target={}", tgt.name()));
         hist.add(&format!("files={}", src.files.len()));
-        run_source(&src, tgt, &mut rng, out, &mut hist, per_source);
+        run_source(&src, tgt, &mut rng, out, &mut hist, per_source, if thorough { 9 } else { 3 });
     }
+    // the diagnostics stream: every family of rejected programs (C07's and this module's), edits aimed at the construct
+    let seeds_per_family = if thorough { 24 } else { 6 };
+    let mut fam_sources = 0u64;
+    let diag_names: Vec<String> = diag::FAMILIES.iter().map(|s| s.to_string()).collect();
+    for (kind, fams) in [("diag", diag_names), ("own", own_family_names())] {
+        for (fi, family) in fams.iter().enumerate() {
+            // the single-program families have no variation beyond their header lines
+            let seeds = if family.starts_with("ty_single#") || family.starts_with("lx_single#") { (seeds_per_family / 6).max(1) } else { seeds_per_family };
+            for j in 0..seeds {
+                let seed = rng.next() >> 16;
+                let Some(src) = family_source(kind, family, seed) else { continue };
+                let every_target = family.starts_with("export") || family.starts_with("layout");
+                for (ti, t) in ALL_TARGETS.iter().enumerate() {
+                    if (every_target && j == 0) || ti == (fi + j as usize) % 4 {
+                        hist.add(&format!("family-target={}", t.name()));
+                        fam_sources += 1;
+                        run_source(&src, *t, &mut rng, out, &mut hist, 2, 9);
+                    }
+                }
+            }
+        }
+    }
+    hist.0.insert("family-sources".into(), fam_sources);
+    // the repository's own rejected inputs (first argument of check_fail / check_fail_message in the typer tests)
+    let repo_root = std::env::var("VERIF_REPO").unwrap_or_else(|_| "/repo".to_string());
+    let mut rejected = 0u64;
+    for rel in ["typer/tests/type_check_tests.rs", "typer/tests/evaluator_tests.rs"] {
+        if let Ok(text) = std::fs::read_to_string(format!("{}/{}", repo_root, rel)) {
+            for (i, src) in diag::extract_rejected_inputs(&text, &["check_fail(", "check_fail_message("]).iter().enumerate() {
+                if !thorough && i % 3 != 0 {
+                    continue;
+                }
+                rejected += 1;
+                let source = Source { files: vec![("type_test.rssl".to_string(), src.clone())], mode: Mode::NoPipeline, layout: false, tag: format!("repo-rejected:{}:{}", rel.rsplit('/').next().unwrap_or(""), i), clean: None, anchor: None, note_anchor: None };
+                run_source(&source, ALL_TARGETS[i % 4], &mut rng, out, &mut hist, 1, if thorough { 9 } else { 4 });
+            }
+        }
+    }
+    hist.0.insert("repo-rejected-inputs".into(), rejected);
     run_position_cases(&mut rng, if thorough { 40000 } else { 3000 }, &sample_files, out, &mut hist);
+    run_lex_cases(&mut rng, if thorough { 60000 } else { 4000 }, &sample_files, out, &mut hist);
     // the repository's own inputs
     let repo = std::env::var("VERIF_REPO").unwrap_or_else(|_| "/repo".to_string());
     let corpus = repo_corpus(&repo);
